@@ -1,4 +1,4 @@
-//go:build retrhook
+//go:build verif
 
 package main
 
@@ -274,7 +274,7 @@ func (r *c19Runner) Step(_ []string, raw string) string {
 		return withTempDir(func(dir string) string {
 			points, _, err := r.runDump(dir+"/out", false, 0)
 			if err != nil {
-				return "err " + errClass(err)
+				return "err " + retrErrClass(err)
 			}
 			return fmt.Sprintf("ok n=%d %s", len(points), strings.Join(points, ","))
 		})
@@ -385,8 +385,8 @@ func (r *c19Runner) dumpFresh(crashAt int) string {
 			r.stats.Inc("crashed." + crashed.name)
 			return fmt.Sprintf("crashed %d %s | %s", crashed.k, crashed.name, r.summary())
 		case err != nil:
-			r.stats.Inc("dump.err." + errClass(err))
-			return fmt.Sprintf("err %s | %s", errClass(err), r.summary())
+			r.stats.Inc("dump.err." + retrErrClass(err))
+			return fmt.Sprintf("err %s | %s", retrErrClass(err), r.summary())
 		}
 		r.stats.Inc("dump.completed")
 		return "completed | " + r.summary()
@@ -394,7 +394,7 @@ func (r *c19Runner) dumpFresh(crashAt int) string {
 }
 
 func refusalClass(err error) string {
-	c := errClass(err)
+	c := retrErrClass(err)
 	if c == "byte-count" {
 		return "checksum"
 	}
@@ -407,7 +407,7 @@ func (r *c19Runner) resume(crashAt int) string {
 		if err := os.MkdirAll(out, 0o755); err != nil {
 			return "err tempdir"
 		}
-		if err := writeTree(out, r.dir); err != nil {
+		if err := writeFileTree(out, r.dir); err != nil {
 			return "err tempdir"
 		}
 		_, crashed, err := r.runDump(out, true, crashAt)
@@ -416,7 +416,7 @@ func (r *c19Runner) resume(crashAt int) string {
 		case crashed != nil:
 			r.stats.Inc("resume.crashed." + crashed.name)
 			return fmt.Sprintf("crashed %d %s | %s", crashed.k, crashed.name, r.summary())
-		case err != nil && errClass(err) == "db-read":
+		case err != nil && retrErrClass(err) == "db-read":
 			r.stats.Inc("resume.err.db-read")
 			return fmt.Sprintf("err db-read | %s", r.summary())
 		case err != nil:
@@ -443,7 +443,7 @@ func (r *c19Runner) final() string {
 		if r.ref == nil || r.refKey != key {
 			out := dir + "/ref"
 			if _, _, err := r.runDump(out, false, 0); err != nil {
-				return "err reference-dump " + errClass(err)
+				return "err reference-dump " + retrErrClass(err)
 			}
 			r.ref, r.refKey = readTree(out), key
 		}
